@@ -79,6 +79,7 @@ type Run struct {
 	Traces              int64 // executions of the real code judged against the specification
 	Evaluations         int64
 	Nontrivial          int64
+	ntVerdicts          int64
 	Rule                string
 	Exhaustive          bool
 	Samples             []any
